@@ -10,8 +10,9 @@ class TestService:
     """Position-sensitive polynomial hash over the buffer written so far, reduced to the
     value domain of the checksum field's declared type."""
 
-    def __init__(self, typ):
+    def __init__(self, typ, wide=False):
         self.typ = typ
+        self.wide = wide  # 64-bit fields: the hash in both halves of the value
 
     def calc(self, buf):
         h = 7
@@ -19,6 +20,8 @@ class TestService:
             h = (h * 131 + c + 1) & 0x7FFFFFFF
         if h & 7 == 0:
             h = 0
+        if self.wide and self.typ in ('u64', 'i64'):
+            h = h * 0x100000001
         bits = {'u8': 8, 'i8': 8, 'u16': 16, 'i16': 16, 'u32': 32, 'i32': 32, 'u64': 64, 'i64': 64}[self.typ]
         v = h & ((1 << bits) - 1)
         if self.typ[0] == 'i' and v >= 1 << (bits - 1):
